@@ -549,8 +549,8 @@ attribute [simp] gv_applyLoop gv_mapLoop
     exact Eq.trans (gv_of rfl rfl rfl rfl) h0
   · exact h0
 
-@[simp] theorem gv_wakeWaitRoom (p : Pool) (m : Nat) (r : Req) : gv (p.wakeWaitRoom m r) = gv p := by
-  unfold wakeWaitRoom; simp only
+@[simp] theorem gv_wakeWaitRoomCore (p : Pool) (m : Nat) (r : Req) : gv (p.wakeWaitRoomCore m r) = gv p := by
+  unfold wakeWaitRoomCore; simp only
   have h0 : gv (({ p with sem := { p.sem with waiters := (removeWaiterL m p.sem.waiters).2 } } : Pool).modReq m
       fun x => { x with mustCancel := false }) = gv p :=
     (gv_modReq _ _ _ (by intro k; exact ⟨rfl, rfl⟩)).trans (gv_of rfl rfl rfl rfl)
@@ -560,14 +560,20 @@ attribute [simp] gv_applyLoop gv_mapLoop
     · simp only [gv_roomGranted]; exact h0
     · exact h0
 
+@[simp] theorem gv_wakeWaitRoom (p : Pool) (m : Nat) (r : Req) : gv (p.wakeWaitRoom m r) = gv p := by
+  unfold wakeWaitRoom; split <;> simp
+
 @[simp] theorem gv_mapSemGranted (p : Pool) (m : Nat) (r : Req) : gv (p.mapSemGranted m r) = gv p := by
   unfold mapSemGranted; simp only; split <;> simp
 
-@[simp] theorem gv_wakeWaitMapSem (p : Pool) (m : Nat) (r : Req) : gv (p.wakeWaitMapSem m r) = gv p := by
-  unfold wakeWaitMapSem; simp only
+@[simp] theorem gv_wakeWaitMapSemCore (p : Pool) (m : Nat) (r : Req) : gv (p.wakeWaitMapSemCore m r) = gv p := by
+  unfold wakeWaitMapSemCore; simp only
   split
   · simp
   · split <;> simp
+
+@[simp] theorem gv_wakeWaitMapSem (p : Pool) (m : Nat) (r : Req) : gv (p.wakeWaitMapSem m r) = gv p := by
+  unfold wakeWaitMapSem; split <;> simp
 
 theorem gv_stepMeta (p : Pool) (m : Nat) : gv (p.stepMeta m) = gv p := by
   unfold stepMeta; split
